@@ -1305,7 +1305,8 @@ udp_ep_init(
 	ep->tx_ring.descs =
 	    NNI_ALLOC_STRUCTS(ep->tx_ring.descs, NNG_UDP_TXQUEUE_LEN);
 	if (ep->tx_ring.descs == NULL) {
-		NNI_FREE_STRUCT(ep);
+		// (the endpoint is not ours to free, and udp_ep_fini will be
+		// called for it)
 		return (NNG_ENOMEM);
 	}
 	ep->tx_ring.size = NNG_UDP_TXQUEUE_LEN;
@@ -1330,8 +1331,8 @@ udp_ep_init(
 	ep->rcvmax           = NNG_UDP_RECVMAX;
 	ep->copymax          = NNG_UDP_COPYMAX;
 	ep->max_peers        = NNG_UDP_MAX_PEERS;
-	if ((rv = nni_msg_alloc(&ep->rx_payload, ep->rcvmax) != 0)) {
-		NNI_FREE_STRUCTS(ep->tx_ring.descs, NNG_UDP_TXQUEUE_LEN);
+	if ((rv = nni_msg_alloc(&ep->rx_payload, ep->rcvmax)) != 0) {
+		// udp_ep_fini releases the transmit ring
 		return (rv);
 	}
 
